@@ -60,4 +60,6 @@ SCALED_RESULTS = {
 # that follows is only meaningful without a wrap).  E4 obligation `wrap-free` (C11): the operation provably does not wrap there.
 NOWRAP_CALLERS = {
     "minimal_lexical::bellerophon::error_is_accurate": "halfway -/+ errors are compared with the truncated bits; a wrapped bound accepts every value",
+    # the (disguised) fast path is exact only if significand * 10^k is the true product: none today (checked_mul), so this entry is a guard
+    "minimal_lexical::number::{impl#0}::try_fast_path": "the fast path returns significand * 10^k converted once; a wrapped product is a different number",
 }
